@@ -57,20 +57,15 @@ structure HeapPreservedExcept (c : CellId) (h h' : Heap) : Prop where
   cells : h.cells.size ≤ h'.cells.size
   arrs : h.arrs.size ≤ h'.arrs.size
   objs : h.objs.size ≤ h'.objs.size
-  get : ∀ d, d ≠ c → h.get d ≠ .unknown → h'.get d = h.get d
-  unset : ∀ d, d ≠ c → d < h.cells.size → h.get d = .unknown →
-    h'.get d = .unknown ∨ FreshEmpty h h' (h'.get d)
+  get : ∀ d, d ≠ c → d < h.cells.size → h'.get d = h.get d
   arr : ∀ a, a < h.arrs.size → h'.arr a = h.arr a
   obj : ∀ o, o < h.objs.size → h'.obj o = h.obj o
 
 theorem HeapPreserved.set_except {h h1 : Heap} (p : HeapPreserved h h1) (c : CellId) (w : Val) :
     HeapPreservedExcept c h (h1.set c w) := by
-  refine ⟨by rw [Heap.size_set]; exact p.cells, p.arrs, p.objs, ?_, ?_, p.arr, p.obj⟩
-  · intro d hd hne
-    rw [Heap.get_set_ne' _ _ _ _ hd]; exact p.get d hne
-  · intro d hd hlt hu
-    rw [Heap.get_set_ne' _ _ _ _ hd]
-    exact p.unset d hlt hu
+  refine ⟨by rw [Heap.size_set]; exact p.cells, p.arrs, p.objs, ?_, p.arr, p.obj⟩
+  intro d hd hlt
+  rw [Heap.get_set_ne' _ _ _ _ hd]; exact p.get d hlt
 
 /-- the value written is the copy of the source value (if the target cell is allocated) -/
 theorem assign_existing_eq (prog : Program) (n : Nat) (l r : Expr) (op : Token) (s s1 s2 : St)
